@@ -250,4 +250,32 @@ WITNESSES = [
     dict(id="c14-ok-placeholder-per-occurrence", prop="C14", file=D, expect=None, edits=[
         ("            exponent = obj.exponent\n", "            exponent = obj.exponent\n            x = Index('y')\n"),
     ]),
+    # ---- F28: target indices of the block expression when a tensor index occurs more than once in the remainder
+    # (the anchors exist once the fix is in the tree; before that the witnesses are skipped)
+    dict(id="c14-f28-revert", prop="C14", file=S, expect="R14c",
+         old="        elif any(n for s, n in term.terms[0]._idx_counter\n                 if s in indices):\n", new="        elif False:\n"),
+    dict(id="c14-f28-targets-without-tensor-indices", prop="C14", file=S, expect="R14c",
+         old="            term.set_target_idx(term.terms[0].target + tuple(indices))", new="            term.set_target_idx(term.terms[0].target)"),
+    dict(id="c14-f28-unify-revert", prop="C14", file=S, expect="R14c",
+         old="            elif (ret[key].provided_target_idx !=\n                    contrib.provided_target_idx):\n                unify_target_idx(ret[key], contrib)\n", new=""),
+    # the same condition spelled through the index list of the remaining term
+    dict(id="c14-ok-f28-condition-by-counting", prop="C14", file=S, expect=None,
+         old="        elif any(n for s, n in term.terms[0]._idx_counter\n                 if s in indices):\n",
+         new="        elif [s for s in indices if term.terms[0].idx.count(s) > 1]:\n"),
+    # explicit target indices built from the counter instead of Term.target
+    dict(id="c14-ok-f28-targets-from-counter", prop="C14", file=S, expect=None,
+         old="            term.set_target_idx(term.terms[0].target + tuple(indices))",
+         new="            once = [s for s, n in term.terms[0]._idx_counter if not n]\n            term.set_target_idx(list(indices) + once)"),
+    # ---- twins of the accumulation witnesses for the tree with the F28 fix (unify_target_idx in the accumulation)
+    dict(id="c14-accumulate-overwrite-f28", prop="C14", file=S, expect="R14e",
+         old="            if key not in ret:\n                ret[key] = 0\n            elif (ret[key].provided_target_idx !=\n                    contrib.provided_target_idx):\n                unify_target_idx(ret[key], contrib)\n            ret[key] += contrib\n    return ret",
+         new="            ret[key] = contrib\n    return ret"),
+    dict(id="c14-ok-accumulate-alias-temporary-f28", prop="C14", file=S, expect=None,
+         old="                    if key not in ret:\n                        ret[key] = 0\n                    elif (ret[key].provided_target_idx !=\n                            contrib.provided_target_idx):\n                        unify_target_idx(ret[key], contrib)\n                    ret[key] += contrib",
+         new="                    if key not in ret:\n                        ret[key] = contrib\n                        continue\n                    if (ret[key].provided_target_idx !=\n                            contrib.provided_target_idx):\n                        unify_target_idx(ret[key], contrib)\n                    ret[key] += contrib"),
+    dict(id="c14-ok-try-except-accumulate-f28", prop="C14", file=S, expect=None,
+         old="            if key not in ret:\n                ret[key] = 0\n            elif (ret[key].provided_target_idx !=\n                    contrib.provided_target_idx):\n                unify_target_idx(ret[key], contrib)\n            ret[key] += contrib\n    return ret",
+         new="            try:\n                collected = ret[key]\n            except KeyError:\n                ret[key] = 0 + contrib\n                continue\n"
+             "            if collected.provided_target_idx != contrib.provided_target_idx:\n                unify_target_idx(collected, contrib)\n"
+             "            collected += contrib\n    return ret"),
 ]
